@@ -1,4 +1,7 @@
 import MazeVerif.Lemmas.WilsonStepProb
+import MazeVerif.Lemmas.WilsonRefine
+import MazeVerif.Lemmas.SpanningMask
+import MazeVerif.Props.C01
 import MazeVerif.Props.C19Table33
 /-! # C19 — Wilson's generator samples spanning trees uniformly
 
@@ -12,6 +15,11 @@ General theorems (EVERY grid, every `n`, no bound): monotonicity, the sandwich `
 returns `T`" (the machine is what the correspondence check replays against real `gen_wilson` runs).
 Small grids (2x2, 2x3, 3x2, 3x3): for EVERY number of draws `m ≥ n0` every spanning tree has probability within
 `10⁻⁹` of `1/N`, so every spanning tree appears and the limit law is uniform up to `10⁻⁹`.
+Support (EVERY grid, `Lemmas/WilsonRefine.lean` + `Lemmas/SpanningMask.lean`): the step machine refines the nested-loop
+model of C01 (`C19_machine_refines_nested`), so every completed run returns a spanning tree in C01's sense
+(`C19_support_sub`); the executable test behind the tables is sound and complete (`C19_isSpanningMask_iff`), the table
+`allSpanningMasks` is exactly the set of spanning trees (`C19_table_exact`), every returned mask is a table entry
+(`C19_support_in_table`) and every other mask has probability 0 at all times (`C19_outside_table_zero`).
 `_partial`: uniformity on larger grids (Wilson's theorem in general) is not mechanised. -/
 namespace MZ.C19
 open MZ.WProb MZ.WStep
@@ -162,11 +170,116 @@ theorem C19_every_tree_appears_3x2 : ∀ T ∈ allSpanningMasks 3 2, ∃ a b ds 
 theorem C19_every_tree_appears_3x3 : ∀ T ∈ allSpanningMasks 3 3, ∃ a b ds s, run 3 3 (a :: b :: ds) ds.length = some (s, []) ∧ s.edges = T :=
   C19_tree_appears_of_uniform C19_uniform_3x3 (by norm_num) (by norm_num)
 
+/-! ### the step machine refines the nested-loop model; its support lies inside the spanning trees (EVERY grid) -/
+
+/-- the step machine of this file and the nested-loop model of C01 (`genWilsonTop`) are two descriptions of the same
+    generator: every completed machine run is matched, on the same draw list, by a completed nested run with the same
+    unread draws whose connection list is a permutation of the decoded edge mask -/
+theorem C19_machine_refines_nested {rows cols : Nat} (hr : 0 < rows) (hc : 0 < cols) {draws : List Nat} {fuel : Nat}
+    {s : WS} {rest : List Nat} (h : run rows cols draws fuel = some (s, rest)) :
+    ∃ fuel' w, genWilsonTop rows cols draws fuel' = some w ∧ w.rng = rest ∧
+      (∀ e, e ∈ w.E ↔ e ∈ edgesOfMask rows cols s.edges) ∧ w.E.Perm (edgesOfMask rows cols s.edges) := by
+  obtain ⟨f, w, h1, h2, h3, h4, _⟩ := WRef.wstep_refines_nested hr hc h
+  exact ⟨f, w, h1, h2, h3, h4⟩
+
+private theorem spanningTree_perm {rows cols : Nat} {E E' : List Edge} (hp : E.Perm E')
+    (h : SpanningTree rows cols E) : SpanningTree rows cols E' := by
+  obtain ⟨hwf, hnd, hlen, hreach, hac⟩ := h
+  refine ⟨fun e he => hwf e (hp.mem_iff.mpr he), hp.nodup_iff.mp hnd, by rw [← hp.length_eq]; exact hlen,
+    fun a b ha hb => (hreach a b ha hb).mono (fun e he => hp.mem_iff.mp he), ?_⟩
+  rw [← graphOf_congr (fun e => hp.mem_iff)]; exact hac
+
+/-- support ⊆ spanning trees, ALL grid sizes: whatever draw list the step machine completes on, the connection list
+    encoded by the returned edge mask is a spanning tree of the `rows × cols` grid in exactly the sense of C01
+    (`SpanningTree`: well formed, duplicate-free, `rows*cols-1` connections, all cells mutually reachable, acyclic) -/
+theorem C19_support_sub {rows cols : Nat} (hr : 0 < rows) (hc : 0 < cols) {draws : List Nat} {fuel : Nat}
+    {s : WS} {rest : List Nat} (h : run rows cols draws fuel = some (s, rest)) :
+    SpanningTree rows cols (edgesOfMask rows cols s.edges) := by
+  obtain ⟨f, w, hg, _, _, hp⟩ := C19_machine_refines_nested hr hc h
+  exact spanningTree_perm hp (C01_wilson_spanning hr hc hg)
+
+/-- soundness of the executable test behind the tables: a mask accepted by `isSpanningMask` decodes to a spanning tree
+    of the grid in the sense of C01 (EVERY grid) -/
+theorem C19_isSpanningMask_sound {rows cols m : Nat} (hr : 0 < rows) (hc : 0 < cols)
+    (h : isSpanningMask rows cols m = true) : SpanningTree rows cols (edgesOfMask rows cols m) :=
+  WRef.isSpanningMask_sound hr hc h
+
+/-- every entry of the brute-force table `allSpanningMasks` is a genuine spanning tree (so "uniform on
+    `allSpanningMasks`" in `UniformFrom` is a statement about spanning trees, not about an unverified filter) -/
+theorem C19_table_masks_are_trees {rows cols : Nat} (hr : 0 < rows) (hc : 0 < cols) :
+    ∀ T ∈ allSpanningMasks rows cols, SpanningTree rows cols (edgesOfMask rows cols T) := by
+  intro T hT
+  simp only [allSpanningMasks, List.mem_filter] at hT
+  exact C19_isSpanningMask_sound hr hc hT.2
+
+/-- soundness AND completeness of the executable test: for masks without bits outside the `2*rows*cols` connection
+    slots, `isSpanningMask` decides exactly "the decoded connection list is a spanning tree (C01 sense)" -/
+theorem C19_isSpanningMask_iff {rows cols m : Nat} (hr : 0 < rows) (hc : 0 < cols) (hm : m < 2 ^ (2 * (rows * cols))) :
+    isSpanningMask rows cols m = true ↔ SpanningTree rows cols (edgesOfMask rows cols m) :=
+  ⟨C19_isSpanningMask_sound hr hc, fun h => WRef.isSpanningMask_complete hr hc hm h.1 h.2.2.1 h.2.2.2.1⟩
+
+/-- the brute-force table is EXACTLY the set of spanning trees of the grid (as masks over the connection slots) -/
+theorem C19_table_exact {rows cols T : Nat} (hr : 0 < rows) (hc : 0 < cols) :
+    T ∈ allSpanningMasks rows cols ↔ T < 2 ^ (2 * (rows * cols)) ∧ SpanningTree rows cols (edgesOfMask rows cols T) := by
+  rw [WRef.mem_allSpanningMasks]
+  constructor
+  · intro h
+    have hm : T < 2 ^ (2 * (rows * cols)) := by
+      simp only [isSpanningMask, Bool.and_eq_true, decide_eq_true_eq] at h
+      exact h.1.1.2
+    exact ⟨hm, C19_isSpanningMask_sound hr hc h⟩
+  · rintro ⟨hm, h⟩
+    exact (C19_isSpanningMask_iff hr hc hm).mpr h
+
+/-- support ⊆ table, ALL grid sizes: the mask returned by any completed run of the step machine is an entry of
+    `allSpanningMasks` -/
+theorem C19_support_in_table {rows cols : Nat} (hr : 0 < rows) (hc : 0 < cols) {draws : List Nat} {fuel : Nat}
+    {s : WS} {rest : List Nat} (h : run rows cols draws fuel = some (s, rest)) :
+    s.edges ∈ allSpanningMasks rows cols := by
+  obtain ⟨_, _, _, _, _, _, _, hlt⟩ := WRef.wstep_refines_nested hr hc h
+  rw [Nat.mul_assoc] at hlt
+  exact (C19_table_exact hr hc).mpr ⟨hlt, C19_support_sub hr hc h⟩
+
+/-- in probability terms: a mask that is not a spanning tree of the grid is returned with probability 0, at every
+    time, on EVERY grid -/
+theorem C19_outside_table_zero {rows cols : Nat} (hr : 0 < rows) (hc : 0 < cols) {T : Nat}
+    (hT : T ∉ allSpanningMasks rows cols) (n : Nat) : P rows cols n T = 0 := by
+  have hnn : 0 ≤ P rows cols n T := by
+    unfold P expect
+    apply sum_map_nonneg
+    intro x hx
+    exact mul_nonneg (start_weights_nonneg rows cols x hx) (val_nonneg _ _ _ _)
+  rcases lt_or_eq_of_le hnn with hpos | h0
+  · obtain ⟨a, b, ds, s, _, hrun, he⟩ := C19_positive_has_run rows cols n T hpos
+    exact absurd (he ▸ C19_support_in_table hr hc hrun) hT
+  · exact h0.symm
+
 /-! ### non-vacuity -/
 
 example : (allSpanningMasks 2 2) = [19, 67, 81, 82] := by decide
 example : 3 ∈ allSpanningMasks 2 2 → False := by decide
 example : ∃ T, T ∈ allSpanningMasks 2 2 := ⟨19, by decide⟩
 example : run 2 2 [0, 0, 0, 0, 0, 1, 0, 0] 6 = some ({ vis := 15, edges := 81, path := [] }, []) := by decide
+-- the refinement / support theorems apply to that completed run (mask 81 = connections (0,0,0), (1,0,0), (1,1,0))
+example : SpanningTree 2 2 (edgesOfMask 2 2 81) :=
+  C19_support_sub (rows := 2) (cols := 2) (by decide) (by decide) (draws := [0, 0, 0, 0, 0, 1, 0, 0]) (fuel := 6)
+    (s := { vis := 15, edges := 81, path := [] }) (rest := []) (by decide)
+example : ∃ fuel' w, genWilsonTop 2 2 [0, 0, 0, 0, 0, 1, 0, 0] fuel' = some w ∧ w.rng = [] ∧
+    (∀ e, e ∈ w.E ↔ e ∈ edgesOfMask 2 2 81) ∧ w.E.Perm (edgesOfMask 2 2 81) :=
+  C19_machine_refines_nested (rows := 2) (cols := 2) (by decide) (by decide) (fuel := 6)
+    (s := { vis := 15, edges := 81, path := [] }) (by decide)
+example : edgesOfMask 2 2 81 = [(0, 0, 0), (1, 0, 0), (1, 1, 0)] := by decide
+example : isSpanningMask 2 2 81 = true := by decide
+example : SpanningTree 2 3 (edgesOfMask 2 3 199) := C19_isSpanningMask_sound (by decide) (by decide) (by decide)
+example : ∀ T ∈ allSpanningMasks 2 2, SpanningTree 2 2 (edgesOfMask 2 2 T) := C19_table_masks_are_trees (by decide) (by decide)
+example : isSpanningMask 2 2 81 = true ↔ SpanningTree 2 2 (edgesOfMask 2 2 81) :=
+  C19_isSpanningMask_iff (by decide) (by decide) (by decide)
+example : 81 ∈ allSpanningMasks 2 2 ↔ 81 < 2 ^ (2 * (2 * 2)) ∧ SpanningTree 2 2 (edgesOfMask 2 2 81) :=
+  C19_table_exact (by decide) (by decide)
+example : 81 ∈ allSpanningMasks 2 2 :=
+  C19_support_in_table (rows := 2) (cols := 2) (by decide) (by decide) (draws := [0, 0, 0, 0, 0, 1, 0, 0]) (fuel := 6)
+    (s := { vis := 15, edges := 81, path := [] }) (rest := []) (by decide)
+-- 3 = both vertical connections, nothing else: not a spanning tree, hence never returned
+example : P 2 2 50 3 = 0 := C19_outside_table_zero (by decide) (by decide) (by decide) 50
 
 end MZ.C19
